@@ -15,14 +15,15 @@ import time
 from .. import core
 
 core.bind_repo()  # the tree under test must be first on sys.path before vt imports reactivex
-from .. import vt  # noqa: E402
+from .. import pair_ilv, vt  # noqa: E402
 
 PROPERTY = "C13"
 LEVEL = "exploration"
 META = {
     "engine": "vtx",
     "technique": "bounded-exhaustive enumeration of tuples of source timelines on virtual time against nondeterministic "
-    "reference simulators closed over all orders of simultaneous events",
+    "reference simulators closed over all orders of simultaneous events; plus stateless exhaustive exploration of thread interleavings "
+    "(bounded preemptions) with every source emitting from its own thread, judged by the schedule-independent consequences of the pairing rules",
     "text": "zip, combine_latest, with_latest_from, fork_join and amb (factory and operator form) are run on every tuple of "
     "1..n hot/cold source timelines of the tier's timeline set (interleaved, simultaneous, empty, erroring, never-ending, "
     "hot sources that started or ended before subscription); recorded notifications (values by type and ==, instants) and "
@@ -453,11 +454,14 @@ def run(ctx: core.Ctx):
         "combine_latest: the statement does not say when it completes; accepted: when all sources completed, or earlier once a source "
         "completed without a value; with_latest_from completes with its primary; errors of any source are forwarded at once",
     ]
+    pair_ilv.run_part(ctx)  # E3: every source on its own thread
     part = ctx.sharded(shard)
     ctx.cov["operators_covered"] = sorted(k[3:] for k in part.counters if k.startswith("op:"))
 
 
 def replay(case):
+    if isinstance(case, dict) and str(case.get("harness", "")).startswith("pair-threads|"):
+        return pair_ilv.replay(case)
     sources = tuple((bool(h), [tuple(e) for e in tl]) for (h, tl) in case["sources"])
     # JSON turned tuples inside values into lists/strings: re-create values from the seed's alphabets by position
     alphas = value_alphabets(case.get("seed", 0))
